@@ -391,8 +391,18 @@ def build_unit(spec_path, repo, contracts_dir, shim_table, force_extern=None):
         s = src(rel)
         if kind == 'const':
             a, b = s.const(nm)
-            out_consts.append(s.text[a:b].strip())
-            roundtrip.append((rel, s.text[a:b].strip()))
+            t = s.text[a:b].strip()
+            # ascii!(hi / lo) is the crate's macro for the one-character ASCII string with code (hi << 4) + lo
+            # (src/lib.rs; it uses unsafe from_utf8_unchecked, which Verus cannot read): evaluate it mechanically
+            t2 = re.sub(r'ascii!\((\d+) / (\d+)\)', lambda mm: shim_wrap('ascii-const', mm.group(0), '"\\u{%x}"' % ((int(mm.group(1)) << 4) + int(mm.group(2)))), t)
+            # inside verus! a const is also a (spec) function: elided lifetimes in its type must be spelled out
+            eqpos = t2.index('=')
+            ty = re.sub(r'&(?!\')', '&' + inline("'static "), t2[:eqpos])
+            t2 = ty + t2[eqpos:]
+            if strip_woven(t2) != t:
+                raise WeaveError('round-trip mismatch in const %s' % nm)
+            out_consts.append(t2)
+            roundtrip.append((rel, t))
         elif kind == 'structpub':
             # Verus cannot import a struct with non-pub fields transparently; visibility has no run-time meaning,
             # so the copy handed to Verus gets `pub` on every field (marked, and undone by strip_woven)
@@ -421,8 +431,36 @@ def build_unit(spec_path, repo, contracts_dir, shim_table, force_extern=None):
             impl_re = r'^impl %s for %s\b' % (fs.opts['trait'], fs.impl)
         elif True:
             impl_re = fs.opts.get('implre', r'^impl (ParserListener for )?%s\b' % fs.impl)
-        hdr, a, brace, b = s.fn_in_impl(impl_re, fs.src_name)
-        text = s.text[a:b]
+        if fs.opts.get('closurefn'):
+            # closure-to-fn (DESIGN 3.3): the body of the shipping (#[cfg(not(test))]) recogniser closure
+            #   Gn::<String>::new_scoped(move |mut co| { BODY })
+            # becomes  fn NAME(PARAMS) { BODY };  the #[cfg(test)] copy must be textually identical.
+            marker = 'new_scoped(move |mut co| {'
+            occ = [mm.start() for mm in re.finditer(re.escape(marker), s.text)]
+            if len(occ) != 2:
+                raise WeaveError('lost anchor: expected 2 copies of the recogniser closure in %s, found %d' % (rel, len(occ)))
+            bodies = []
+            for o in occ:
+                ob = o + len(marker) - 1
+                cb = match_close(s.mask, ob)
+                bodies.append((ob, cb))
+            b0 = s.text[bodies[0][0]:bodies[0][1] + 1]
+            b1 = s.text[bodies[1][0]:bodies[1][1] + 1]
+            if b0 != b1:
+                raise WeaveError('the #[cfg(test)] and #[cfg(not(test))] copies of the recogniser differ: the tests no longer exercise the code that ships')
+            pre = s.text[max(0, occ[0] - 400):occ[0]]
+            if '#[cfg(not(test))]' not in pre or pre.rfind('#[cfg(not(test))]') < pre.rfind('#[cfg(test)]'):
+                raise WeaveError('lost anchor: first recogniser copy is not the #[cfg(not(test))] one')
+            params = open(os.path.join(contracts_dir, fs.opts['closurefn'])).read().strip()
+            header = shim_wrap('closure-to-fn', '', 'fn %s(%s) ' % (fs.src_name, params))
+            hdr = 'impl closure-in Parser::new'
+            text = header + b0
+            a = bodies[0][0] - len(header)
+            brace = bodies[0][0]
+            b = bodies[0][1] + 1
+        else:
+            hdr, a, brace, b = s.fn_in_impl(impl_re, fs.src_name)
+            text = s.text[a:b]
         degraded = None
         woven = None
         if not fs.extern and fs.name not in force_extern:
@@ -442,12 +480,14 @@ def build_unit(spec_path, repo, contracts_dir, shim_table, force_extern=None):
                 sig = sig[:arrow + 2] + shim_wrap('name-return', sig[arrow + 2:], ' (%s: %s) ' % (fs.opts['ret'], sig[arrow + 2:].strip()))
             woven = '#[verifier::external_body]\n' + sig + block(fs.name, 'sig', secs[0] if secs else '') + \
                 shim_wrap('extern-body', text[brace - a:], '{ unimplemented!() }')
-        if strip_woven(woven).replace('#[verifier::external_body]\n', '') != text:
+        if strip_woven(woven).replace('#[verifier::external_body]\n', '') != (text if not fs.opts.get('closurefn') else b0):
             open('/tmp/weave_roundtrip_a.txt', 'w').write(strip_woven(woven))
             open('/tmp/weave_roundtrip_b.txt', 'w').write(text)
             raise WeaveError('round-trip mismatch in %s' % fs.name)
-        roundtrip.append((rel, text))
+        roundtrip.append((rel, text if not fs.opts.get('closurefn') else b0))
         spin = '' if (fs.extern or degraded) else '/*@w<*/#[verifier::spinoff_prover]/*@w>*/\n'
+        if fs.opts.get('nodecreases') and not (fs.extern or degraded):
+            spin += '/*@w<*/#[verifier::exec_allows_no_decreases_clause]/*@w>*/\n'
         if fs.opts.get('loop_isolation') == 'false' and not (fs.extern or degraded):
             spin += '/*@w<*/#[verifier::loop_isolation(false)]/*@w>*/\n'
         fn_texts.append((fs, '//@FN< %s\n%s%s\n//@FN> %s\n' % (fs.name, spin, woven, fs.name)))
@@ -482,6 +522,9 @@ def build_unit(spec_path, repo, contracts_dir, shim_table, force_extern=None):
                 hdr = '\x00' + hdr  # generic parameters follow `impl` directly
         by_impl.setdefault(hdr, []).append(woven)
     for impl, ws in by_impl.items():
+        if impl == '-':
+            parts.append('\n' + '\n\n'.join(ws) + '\n')
+            continue
         if impl.startswith('\x00'):
             parts.append('\nimpl%s {\n' % impl[1:])
         else:
